@@ -143,6 +143,8 @@ def _case(draw, tier):
         inner_funcs = [x["name"] for x in w["graph"]["nodes"] if x["k"] == "func"] if w else []
         if len(inner_funcs) >= 2:
             t, f = draw(st.permutations(inner_funcs))[:2]
+            if prob(draw, 0.4):
+                f = "END"  # the inner gate ends its own graph's run
             inner_names = sorted({p for x in w["graph"]["nodes"] if x["k"] == "func" for p in x["params"]})
             gp = list(dict.fromkeys(draw(st.lists(st.sampled_from(inner_names), max_size=1)))) if inner_names else []
             w["graph"]["nodes"] = w["graph"]["nodes"] + [{"k": "ifelse", "name": "gin", "params": gp, "defaults": {}, "t": t, "f": f, "table": [True]}]
@@ -449,6 +451,8 @@ def _check_state(tag, nodes_list, edges_list, tree, deps, input_consumers, sep, 
         rc = reps(c) if kind != "control" or c == "__end__" else sorted(inside(c)) or reps(c)
         if not rp or not rc:
             continue
+        if c == "__end__" and "/" in p and rp != [p]:
+            continue  # an inner gate's END ends its own graph's run: nothing to draw once the gate is folded away
         if rp[0] == rc[0]:
             continue  # both ends inside one collapsed container
         ok = False
@@ -470,7 +474,8 @@ def _check_state(tag, nodes_list, edges_list, tree, deps, input_consumers, sep, 
             flag(Violation("c20.missing_edge", f"[{tag}] {kind} dependency {p} -> {c} ({v!r}) is not drawn between visible representatives {rp} and {rc}",
                            dep=kind, mode="sep" if sep else "merged", shape=_shape(p, c, rp, rc), inner_collapsed="collapsed_inner" in _shape(p, c, rp, rc),
                            producer_in_collapsed_inner=_shape(p, c, rp, rc).startswith("producer_collapsed_inner"),
-                           folded=_folded(kind, p, c, deps), second_producer=_second_producer(p, v, ORDER[0]), boundary_renamed=br, consumer_expanded=cx))
+                           folded=_folded(kind, p, c, deps), second_producer=_second_producer(p, v, ORDER[0]), boundary_renamed=br, consumer_expanded=cx,
+                           fuzzy_name_match=bool(br) and any(o in a or a in o for a in names for o in {v2 for _, _, _, v2 in deps if v2} - set(names))))
         stats["deps_checked"] += 1
     # ---- completeness for graph inputs: every consumer of an input is linked to an INPUT node that lists it
     in_edges = {}
@@ -653,6 +658,8 @@ def _check_mermaid(tag, src, depth, sep, tree, deps, input_consumers, value_alia
         rc = reps(c) if kind != "control" or c == "__end__" else (sorted(inside(c)) or reps(c))
         if not rp or not rc or rp[0] == rc[0]:
             continue
+        if c == "__end__" and "/" in p and rp != [p]:
+            continue  # (as above)
         ok = False
         for u in rp:
             for w in rc:
@@ -669,7 +676,8 @@ def _check_mermaid(tag, src, depth, sep, tree, deps, input_consumers, value_alia
             flag(Violation("c20.mermaid_missing_edge", f"[{tag}] {kind} dependency {p} -> {c} ({v!r}) is not drawn between {rp} and {rc}", dep=kind, mode="sep" if sep else "merged",
                            shape=_shape(p, c, rp, rc), inner_collapsed="collapsed_inner" in _shape(p, c, rp, rc), producer_in_collapsed_inner=_shape(p, c, rp, rc).startswith("producer_collapsed_inner"),
                            folded=_folded(kind, p, c, deps), second_producer=_second_producer(p, v, ORDER[0]),
-                           boundary_renamed=br, consumer_expanded=cx))
+                           boundary_renamed=br, consumer_expanded=cx,
+                           fuzzy_name_match=bool(br) and any(o in a or a in o for a in value_alias.get(v, {v}) for o in {v2 for _, _, _, v2 in deps if v2} - set(value_alias.get(v, {v})))))
         stats["deps_checked"] += 1
     # ---- graph inputs: every consumer of an input is linked to the input node (or input group) that lists it
     pure = sorted(input_consumers)
